@@ -23,6 +23,7 @@ var c19Stmts = []string{
 	"function outer2()\n  local function hidden2() end\n  return hidden2\nend", "if a then\n  function gnested() end\nend",
 	"local function lo(p)\n  if p then\n    p = 1\n  end\n  while p do\n    p = nil\n  end\n  return p\nend",
 	"ta = {}\nfunction ta.f1() end\nfunction ta:m1() end", "tb = {}\nfunction tb.g1() end\nfunction tb.g2() end",
+	"local alpha, beta <const> = 4, 5", "local gamma <const>, delta <close> = 6, nil",
 }
 
 type c19Decl struct {
